@@ -148,15 +148,19 @@ def strays(d, ins, outs):
 
 
 def content(path):
-    """decoded events of an output file (None if it cannot be loaded)"""
+    """decoded events of an output file: every stored scalar feature (None if
+    the file cannot be loaded)"""
     import dclab
     try:
         with dclab.new_dataset(path) as ds:
-            v = np.asarray(ds["deform"][:]) if "deform" in ds \
-                else np.asarray(ds[sorted(ds.features_innate)[0]][:])
-            return [round(float(x), 9) for x in v], sorted(
-                ds.features_innate)
-    except BaseException as exc:
+            inn = sorted(ds.features_innate)
+            vals = {}
+            for f in inn:
+                if dclab.definitions.scalar_feature_exists(f):
+                    vals[f] = [None if x != x else round(float(x), 9)
+                               for x in np.asarray(ds[f][:], dtype=float)]
+            return vals, inn
+    except BaseException:
         return None
 
 
@@ -193,9 +197,9 @@ def _task_case(job):
                         "output nor the temporary name" % task,
                         str(strays(d, ins, outs))))
         ks = list(range(1, total + 1))
-        if not every and total > 60:
-            ks = sorted(set(ks[:25] + ks[-25:] + ks[25:-25:max(
-                1, (total - 50) // 10)]))
+        if not every and total > 200:
+            ks = sorted(set(ks[:60] + ks[-60:] + ks[60:-60:max(
+                1, (total - 120) // 40)]))
         injected = 0
         for mode in ("raise", "kill"):
             for k in ks:
